@@ -13,7 +13,7 @@ CHECKS = {
          "Seeded exploration of programs x fact orders x routes through World's API (direct, clone, evaluate twice, facts added after a first evaluation, rules withdrawn with ResetRules before the real ones) x engine schedules (calm, tape-ordered, tape-ordered with clock stalls): whenever Run returns nil the fact set must equal the reference least model (both inclusions) and every QueryRule result must equal the reference's head instances. Sampling, not proof.",
          "trusted: reference evaluator bsim/ref (naive bottom-up, math/big arithmetic), Go regexp, synctest", "DESIGN.md §3 C05"),
  "C11": ("exploration", "deterministic simulation with fault injection: seeded schedules and clock stalls at engine yield points, limit configurations around the reference model's sizes, goroutine census after every call; plus enumeration of the stall position over every scheduler step of a program catalogue",
-         "Seeded exploration (programs x limit configurations x schedules x clock stalls) with oracles S1-S6 of DESIGN §3 C11 (no silent truncation, limits honoured, distinguishable and possible error, bounded call time, limits honoured by every constructor, no stranded goroutine), plus a fault-enumeration part that is exhaustive in the injection step of the stall for a fixed catalogue of small programs (reported under coverage.fault_enumeration). Sampling elsewhere.",
+         "Seeded exploration (programs x limit configurations x schedules x clock stalls) with oracles S1-S6 of DESIGN §3 C11 (no silent truncation, limits honoured, distinguishable and possible error, bounded call time in simulated time and in scheduling steps past the deadline, limits honoured by every constructor, no stranded goroutine), plus a fault-enumeration part that is exhaustive in the injection step of the stall for a fixed catalogue of small programs (reported under coverage.fault_enumeration). Sampling elsewhere.",
          "trusted: reference model for |lfp| and depth, synctest's durable-blocking detection, runtime.Stack for the goroutine census", "DESIGN.md §3 C11"),
  "C01": ("exploration", "deterministic simulation with fault injection: multi-party histories (issuers, holders, verifiers) over a simulated transport on which a key-less adversary mutates in-flight tokens; oracle = independent wire decoder + ed25519 chain walk + ground-truth key ledger",
          "Seeded exploration of derivation histories (chains up to 16 blocks, the same token object verified repeatedly) x 1-3 mutations per message drawn from 35 byte-level and structural mutation kinds (including tokens forged without any private key under the all-zero small-order public key); soundness (accepted => reference chain walk accepts and the authority block was signed by the issuer per the key ledger), completeness (well-formed and valid => accepted, under a single key and under key sources holding the issuer's key under the id its builder was given or as default, including legitimately valid mutations such as appending with a captured next secret) and 'no Authorizer for a rejected token'. Sampling; ed25519 itself is trusted.",
